@@ -66,6 +66,33 @@ def resolve(key):
     return o
 
 
+def install_stubs(stubs, memo):
+    """Replace callees that the proof only knows through an assumed summary by the values of the model."""
+    import types
+    by_fn = {}
+    for st in stubs:
+        by_fn.setdefault(st["function"], []).append(build(st["returns"], memo))
+    for key, vals in by_fn.items():
+        mod, qn = key.split(":")
+        m = importlib.import_module(mod)
+        vals = list(vals)
+
+        def stub(*a, _vals=vals, **k):
+            v = _vals[0]
+            if len(_vals) > 1:
+                _vals.pop(0)
+            return v
+
+        if "." in qn:
+            cn, mn = qn.split(".", 1)
+            setattr(getattr(m, cn), mn, stub)
+        else:
+            orig = getattr(m, qn)
+            for name, mm in list(sys.modules.items()):
+                if name.startswith("codelimit") and mm is not None and getattr(mm, qn, None) is orig:
+                    setattr(mm, qn, stub)
+
+
 def main():
     rp = json.load(open(sys.argv[1]))
     out = {"function": rp["function"], "obligation": rp.get("obligation")}
@@ -73,11 +100,17 @@ def main():
         fn = resolve(rp["function"])
         memo = {}
         args = {k: build(v, memo) for k, v in rp["inputs"].items()}
+        if rp.get("stubs"):
+            install_stubs(rp["stubs"], memo)
+            out["stubbed_callees"] = sorted({s["function"] for s in rp["stubs"]})
+        if rp.get("wrap"):
+            speclib.wrap_calls(rp["wrap"])
         env = speclib.base_env()
         env.update(args)
         clause = rp.get("clause")
         oe = speclib.OldEnv(clause, env) if clause else None
         del speclib.TRACE[:]
+        del speclib.CALLS[:]
         raised = None
         result = None
         try:
